@@ -22,13 +22,13 @@ Qed.
 
 (* theta is measured from +y towards -x: along (-sin theta, cos theta) the elliptical radius is |w| / r_eff
    (r_eff is the semi-MAJOR axis of the z = 1 contour) ... *)
-Theorem C02_major_axis : forall xc yc f r n e t w,
-  sersic2d_zsq (xc - w * sin t) (yc + w * cos t) xc yc f r n e t = (w * / r) ^ 2.
+Theorem C02_major_axis : forall xc yc r e t w,
+  sersic2d_zsq (xc - w * sin t) (yc + w * cos t) xc yc r e t = (w * / r) ^ 2.
 Proof. exact zsq_along_major. Qed.
 
 (* ... and along the perpendicular (cos theta, sin theta) it is |w| / ((1 - ellip) r_eff): axis ratio 1 - ellip *)
-Theorem C02_minor_axis : forall xc yc f r n e t w,
-  sersic2d_zsq (xc + w * cos t) (yc + w * sin t) xc yc f r n e t = (w * / ((1 - e) * r)) ^ 2.
+Theorem C02_minor_axis : forall xc yc r e t w,
+  sersic2d_zsq (xc + w * cos t) (yc + w * sin t) xc yc r e t = (w * / ((1 - e) * r)) ^ 2.
 Proof. exact zsq_along_minor. Qed.
 
 (* all three renderers realise the same convention: the real-space Gaussians have variance sigma^2 along
